@@ -32,6 +32,7 @@ const (
 	EINTR      = syscall.EINTR
 	EACCES     = syscall.EACCES
 	EPERM      = syscall.EPERM
+	ELOOP      = syscall.ELOOP
 )
 
 type Kevent_t struct {
